@@ -126,20 +126,20 @@ func StatusFor(c map[string]any, class string) map[string]any {
 		return nil
 	case "ready":
 		s := world.ReadyStatus(g)
-		s["x"] = x
+		s["x"], s["mirror"] = x, x
 		return s
 	case "notready":
 		s := world.NotReadyStatus(g)
-		s["x"] = int64(-1)
+		s["x"], s["mirror"] = int64(-1), int64(-2)
 		return s
 	case "stale":
 		s := world.ReadyStatus(g + 7)
-		s["x"] = x
+		s["x"], s["mirror"] = x, x
 		return s
 	case "stale0":
 		// an explicit observedGeneration: 0 (a zero value written before the first real sync)
 		s := world.ReadyStatus(0)
-		s["x"] = x
+		s["x"], s["mirror"] = x, x
 		return s
 	}
 	panic("bad status class " + class)
@@ -306,6 +306,20 @@ func ProbeFor(owner map[string]any) func(map[string]any) bool {
 	switch {
 	case len(prl) == 0:
 		return func(map[string]any) bool { return true }
+	case strings.Contains(kmodel.Digest(map[string]any{"p": pr}), ".status.mirror"):
+		// world.FEProbes: as RefProbe, but a Gadget needs .status.x and .status.mirror present and equal
+		return func(c map[string]any) bool {
+			if k, _ := c["kind"].(string); k != "Gadget" {
+				return RefProbe(c)
+			}
+			st, _ := c["status"].(map[string]any)
+			if og, ok := st["observedGeneration"].(int64); ok && og != world.Generation(c) {
+				return false
+			}
+			a, ok1 := st["x"]
+			b, ok2 := st["mirror"]
+			return ok1 && ok2 && a == b
+		}
 	case strings.Contains(kmodel.Digest(map[string]any{"p": pr}), "self.status.conditions.exists"):
 		return func(c map[string]any) bool {
 			if k, _ := c["kind"].(string); k != "Widget" {
